@@ -403,6 +403,8 @@ class Evaluator:
         self.assume = None        # optional callback: condition term -> True / False / None (partial evaluation)
         self.self_class = None    # qualified class name: `self.method(...)` of that class may be inlined
         self.recv_classes = {}    # receiver term -> qualified class name: `<receiver>.method(...)` may be inlined with self := receiver
+        self.inline_resolved = False   # inline every call that resolves to exactly one project function (see _callee), except
+                                       # constructors, generators, properties and the names in no_inline
 
     def _decide(self, c):
         """Decide a condition term under the current assumptions (None = unknown)."""
@@ -611,7 +613,8 @@ class Evaluator:
                     # an attribute / item stored on one branch only keeps its previous value (the lvalue itself) on the other
                     out[k] = mk_ite(cond, va if va is not None else k, vb if vb is not None else k)
             else:
-                out[k] = mk_ite(cond, va, vb)
+                ext = _filtered_extension(va, vb)
+                out[k] = ext if ext is not None else mk_ite(cond, va, vb)
         return out
 
     def _stmt(self, s, env, pc, res):
@@ -720,8 +723,13 @@ class Evaluator:
             for it in s.items:
                 v = self._e(it.context_expr, env, pc, res)
                 res.events.append(Event("with", v, s, pc))
+                entered = ("op", "enter", (v,))
+                if self.inline_resolved and v[0] == "call":
+                    y = self._enter_project_cm(v, res, pc, env)
+                    if y is not None:
+                        entered = y
                 if it.optional_vars is not None:
-                    self._bind(it.optional_vars, ("op", "enter", (v,)), env, pc, res)
+                    self._bind(it.optional_vars, entered, env, pc, res)
             return self._block(s.body, env, pc, res)
         if isinstance(s, ast.Try):
             a = self._block(s.body, dict(env), pc, res)
@@ -1291,6 +1299,16 @@ class Evaluator:
             if items is not None and not [c for c in pc if c[0] != "loop"]:
                 env[n.func.value.id] = ("list", tuple(items) + (args[0],))
                 return NONE
+            # `if c: L.append(v)`: the list holds v exactly when c (the conditions on the way here) held
+            pairs = None
+            if items is not None:
+                pairs = tuple(("tuple", (TRUE, x)) for x in items)
+            elif cur is not None and cur[0] == "op" and cur[1] == "filtered":
+                pairs = cur[2]
+            if pairs is not None:
+                cond = _conj([(c if pol else ("op", "not", (c,))) for c, pol in pc if c[0] != "loop"])
+                env[n.func.value.id] = ("op", "filtered", tuple(pairs) + (("tuple", (cond, args[0])),))
+                return NONE
         # a mutating method call on a local container invalidates its literal value
         if isinstance(n.func, ast.Attribute) and isinstance(n.func.value, ast.Name) and n.func.attr in MUTATORS:
             cur = env.get(n.func.value.id)
@@ -1358,6 +1376,22 @@ class Evaluator:
                     if r is not None:
                         ev.extra = r
                         return r
+        if target is None and self.inline_resolved and self.project is not None and f[0] in ("sym", "attr") \
+                and (f[1] if f[0] == "sym" else f[2]) not in self.no_inline and self._depth < self.max_inline_depth:
+            cand, bound = self._callee(f)
+            if cand is not None and cand.node.name != "__init__" and cand.qual not in self._stack and not _is_generator(cand.node) \
+                    and not any((dotted(d) or "").endswith(("property", "contextmanager", "setter")) for d in cand.node.decorator_list):
+                margs = ([f[1]] if (bound and f[0] == "attr") else []) + list(args)
+                if not any(a[0] == "star" for a in margs) and not any(k == "**" for k, _v in kws):
+                    facts = {k: v for k, v in env.items() if isinstance(k, tuple)}
+                    back = {}
+                    r = self._inline(cand, margs, kws, res, pc, env=facts, out_env=back if f[0] == "attr" and f[1] == ("sym", "self") else None)
+                    if r is not None:
+                        for k, v in back.items():
+                            if isinstance(k, tuple) and _root_of(k)[0] == "self":
+                                env[k] = v
+                        ev.extra = r
+                        return r
         if target is None and self.inline_closures and f[0] == "sym" and f[1].startswith("<closure ") and f[1][9:-1] in self._closures \
                 and ("closure:" + f[1][9:-1]) not in self._stack and f[1][9:-1] not in self.no_inline:
             cnode, cenv = self._closures[f[1][9:-1]]
@@ -1372,6 +1406,54 @@ class Evaluator:
                 ev.extra = r
                 return r
         return t
+
+    def _enter_project_cm(self, call, res, pc, env):
+        """`with helper(...) as x` for a project function decorated with @contextmanager that yields exactly once:
+        x is what it yields, and what it does on the way belongs to the caller's trace."""
+        f = call[1]
+        if (f[1] if f[0] == "sym" else f[2] if f[0] == "attr" else None) in self.no_inline or self._depth >= self.max_inline_depth:
+            return None
+        cand, bound = self._callee(f)
+        if cand is None or cand.qual in self._stack or not any((dotted(d) or "").endswith("contextmanager") for d in cand.node.decorator_list):
+            return None
+        margs = ([f[1]] if (bound and f[0] == "attr") else []) + list(call[2])
+        if any(a[0] == "star" for a in margs) or any(k == "**" for k, _v in call[3]):
+            return None
+        a = cand.node.args
+        params = [x.arg for x in a.posonlyargs + a.args]
+        if len(margs) > len(params) or a.vararg or a.kwarg:
+            return None
+        binding = dict(zip(params, margs))
+        for k, v in call[3]:
+            if k not in params or k in binding:
+                return None
+            binding[k] = v
+        defaults = dict(zip(params[len(params) - len(a.defaults):], a.defaults))
+        menv = self.module_env
+        if self.project is not None and cand.module.name != (self.ctx_module or self.local_module):
+            menv = _cached_module_env(self.project, cand.module.name)
+        sub_ev = Evaluator(self.project, self.namedtuples, self.inline, menv, self.max_inline_depth, self.local_module, self.no_inline)
+        sub_ev._depth = self._depth + 1
+        sub_ev._stack = self._stack + (cand.qual,)
+        sub_ev.assume, sub_ev.static_len, sub_ev.unroll = self.assume, self.static_len, self.unroll
+        sub_ev.self_class, sub_ev.recv_classes, sub_ev.inline_resolved = self.self_class, self.recv_classes, self.inline_resolved
+        sub_ev.ctx_module = cand.module.name
+        for p_ in params:
+            if p_ not in binding:
+                if p_ in defaults:
+                    binding[p_] = sub_ev._e(defaults[p_], dict(menv), (), Result())
+                else:
+                    return None
+        sub_ev._loop_base = self._loop_counter
+        facts = {k: v for k, v in env.items() if isinstance(k, tuple)}
+        r = sub_ev.run(cand.node, env=facts, args=binding)
+        self._loop_counter = max(self._loop_counter, sub_ev._loop_counter)
+        if len(r.yields) != 1:
+            return None
+        for e in r.events:
+            if e.kind in ("call", "store", "raise", "del", "with"):
+                res.events.append(Event(e.kind, e.term, e.node, pc + e.pc, e.extra))
+        return r.yields[0][1]
 
     def _recv_of(self, n, env, pc):
         return self._e(n.func.value, env, pc, Result())
@@ -1524,6 +1606,7 @@ class Evaluator:
         sub_ev.unroll = self.unroll
         sub_ev.self_class = self.self_class
         sub_ev.recv_classes = self.recv_classes
+        sub_ev.inline_resolved = self.inline_resolved
         sub_ev.ctx_module = func.module.name if hasattr(func, "module") else self.ctx_module
         for p in params:
             if p not in binding:
@@ -1636,6 +1719,28 @@ def _conj(cs):
     if not cs:
         return TRUE
     return cs[0] if len(cs) == 1 else ("op", "and", tuple(cs))
+
+
+def _filtered_pairs(t):
+    if t[0] == "op" and t[1] == "filtered":
+        return tuple(t[2])
+    if t[0] == "list" and not any(x[0] == "star" for x in t[1]):
+        return tuple(("tuple", (TRUE, x)) for x in t[1])
+    if t[0] == "new" and t[2] == ("list", ()):
+        return ()
+    return None
+
+
+def _filtered_extension(a, b):
+    """One branch appended to a list under its own conditions (`if c: L.append(v)`), the other left it alone: the element
+    conditions already say when each element is there, so the join is the longer list."""
+    pa, pb = _filtered_pairs(a), _filtered_pairs(b)
+    if pa is None or pb is None or pa == pb:
+        return None
+    for short, long_, longt in ((pa, pb, b), (pb, pa, a)):
+        if len(long_) > len(short) and long_[:len(short)] == short and longt[0] == "op":
+            return longt
+    return None
 
 
 def _const_truth(t):
